@@ -136,6 +136,21 @@ def inprocess(case, res, count=True):
         return ('analysis:raised-%s' % type(exc).__name__, 'attach/analysis of a later graph raised %r' % (exc,))
     if canon(g3._to_dict()) != dA:
         return ('determinism:same-process-differs', 'generate + attach_attackers + analysis gives another serialised graph the second time in one process')
+    # the third route to the same graph: the analysed graph object generates again (regenerate_graph), once and a
+    # second time, and is attached and analysed again
+    try:
+        for _ in range(2):
+            g1.regenerate_graph()
+            if canon(g1._to_dict()) != d2:
+                return ('determinism:regenerated-differs', 'regenerate_graph() on a graph that had attackers and analysis gives another serialised graph than the constructor')
+            g1.attach_attackers()
+            calculate_viability_and_necessity(g1)
+            if canon(g1._to_dict()) != dA:
+                return ('determinism:regenerated-differs', 'regenerate_graph() + attach_attackers + analysis gives another serialised graph than constructor + attach_attackers + analysis')
+    except Exception as exc:
+        return ('analysis:raised-%s' % type(exc).__name__, 'regenerate / attach / analysis raised %r' % (exc,))
+    if count:
+        res.count('class:regenerated-attached-analysed-twice')
     return None
 
 
